@@ -15,7 +15,7 @@ from vmon.res import Result, exc_name, capture_stdout
 
 ID = "C16"
 LEVEL = "exploration"
-CASES = {"quick": 8000, "thorough": 160000}
+CASES = {"quick": 8000, "thorough": 640000}
 RULE = ("seeded random pairs of lists (0-10 items) with duplicate and None keys on both sides, 1-2 keys, same-name and (left,right) renamed "
         "keys, disjoint key sets, empty operands x {left,inner,semi,anti,full}_join; lists with 1-2 group keys incl. None x aggregate with "
         "len + tracer summary; non-trivial = both operands non-empty / >= 2 items; distinct = distinct (operation, key count, renamed?, "
